@@ -4744,7 +4744,7 @@ class C19(Prop):
 class C20(EvalProp):
     id = 'C20'
     what = 'behaviour on non-JSON Go values'
-    rule = ('generator documents with a random subset of leaves replaced by values of 28 non-JSON Go types (ints, structs, '
+    rule = ('generator documents with a random subset of leaves replaced by values of some forty-five non-JSON Go types and values (ints, structs, '
             'struct{}, typed maps/slices, pointers, typed nils, funcs, channels, arrays, NaN, time.Time, error, Accessor), all '
             'parsable generated paths incl. existence tests, literal/ordering/regex/deep-equal comparisons and functions; '
             'results, errors (found type) and call logs compared with the model; any panic / undocumented error is a '
